@@ -39,6 +39,10 @@ var c07Reqs = []c07Req{
 	{"invalid", `{ nope node { zzz } }`, nil},
 	{"scalars", `{ x1 x2 leafy { s i } }`, nil},
 	{"typed-fragment-merge", `{ a { ...P } c { ...P } nodes(n:3) { ...P } } fragment P on Node { peer(as:"B") { id } ... on A { peer(as:"B") { ... on B { bOnly } } } ... on C { peer(as:"B") { name } } }`, nil},
+	{"dir-var-true", `query($s:Boolean!){ x1 @skip(if:$s) x2 a { name @include(if:$s) id } }`, map[string]interface{}{"s": true}},
+	{"dir-var-false", `query($s:Boolean!){ x1 @skip(if:$s) x2 a { name @include(if:$s) id } }`, map[string]interface{}{"s": false}},
+	{"enum-list-var", `query($ks:[Kind]){ echo2(ks:$ks) }`, map[string]interface{}{"ks": []interface{}{"BETA", "GAMMA", "ALPHA"}}},
+	{"field-errors", `{ x1 leafy { s sNN } a { name } }`, nil},
 	{"fieldresolver-static-args", `{ plainFR { echoArg(x:5, y:2) e2: echoArg name } x1 }`, nil},
 	// executed only as an unvalidated prepared plan: the literal makes user code
 	// (ParseLiteral) panic while an abstract alternative is being planned lazily
@@ -233,7 +237,14 @@ func c07Solo(op C07Op, variant uint64, world int, faults map[string]string) stri
 		w.PanicLiteral = true
 		return MarshalResult(graphql.ExecutePlan(pl, graphql.ExecuteParams{Schema: w.Schema, Args: rq.Vars, Context: ctx}))
 	}
-	return MarshalResult(graphql.Do(graphql.Params{Schema: w.Schema, RequestString: rq.Query, VariableValues: rq.Vars, Context: ctx}))
+	return MarshalResult(graphql.Do(graphql.Params{Schema: w.Schema, RequestString: rq.Query, VariableValues: deepCopyVars(rq.Vars), Context: ctx}))
+}
+
+func deepCopyVars(m map[string]interface{}) map[string]interface{} {
+	if m == nil {
+		return nil
+	}
+	return deepCopy(m).(map[string]interface{})
 }
 
 func (c07) Run(t TestingT, scn json.RawMessage, tape *Tape) *Outcome {
@@ -340,6 +351,14 @@ func (c07) Run(t TestingT, scn json.RawMessage, tape *Tape) *Outcome {
 						tc.Out["panic"] = fmt.Sprint(r)
 					}
 				}()
+				held := map[string]*graphql.Result{}
+				defer func() {
+					// the results are still held when the client ends: they must
+					// read as they did when they were returned
+					for key, r := range held {
+						tc.Out[key+":late"] = MarshalResult(r)
+					}
+				}()
 				for oi, op := range cl.Ops {
 					rq := c07Reqs[op.Req]
 					s.Gate(name, "client:op", fmt.Sprintf("%d %s %s", oi, op.Kind, rq.Name))
@@ -348,13 +367,15 @@ func (c07) Run(t TestingT, scn json.RawMessage, tape *Tape) *Outcome {
 					key := fmt.Sprintf("%s.%d", name, oi)
 					switch op.Kind {
 					case "do":
-						tc.Out[key] = MarshalResult(graphql.Do(graphql.Params{Schema: w.Schema, RequestString: rq.Query, VariableValues: rq.Vars, Context: ctx}))
+						held[key] = graphql.Do(graphql.Params{Schema: w.Schema, RequestString: rq.Query, VariableValues: rq.Vars, Context: ctx})
+						tc.Out[key] = MarshalResult(held[key])
 					case "cache":
 						pr := cache.Get(&w.Schema, rq.Query, "")
 						if len(pr.Errors) > 0 || pr.Plan == nil {
 							tc.Out[key] = MarshalResult(&graphql.Result{Errors: pr.Errors})
 						} else {
-							tc.Out[key] = MarshalResult(graphql.ExecutePlan(pr.Plan, graphql.ExecuteParams{Schema: w.Schema, Args: mergeArgs(rq.Vars, pr.SynthArgs), Context: ctx}))
+							held[key] = graphql.ExecutePlan(pr.Plan, graphql.ExecuteParams{Schema: w.Schema, Args: mergeArgs(rq.Vars, pr.SynthArgs), Context: ctx})
+							tc.Out[key] = MarshalResult(held[key])
 						}
 					case "plan":
 						if pl := plans[[2]int{cl.World, op.Req}]; pl != nil {
@@ -415,6 +436,9 @@ func (c07) Run(t TestingT, scn json.RawMessage, tape *Tape) *Outcome {
 		}
 		for oi, op := range cl.Ops {
 			key := fmt.Sprintf("%s.%d", name, oi)
+			if late, ok := outs[key+":late"]; ok && late != outs[key] {
+				o.Violate("C07/result-changed-after-return", "client %s op %d (%s %s): the returned result reads differently at the end of the run\n returned: %s\n    later: %s", name, oi, op.Kind, c07Reqs[op.Req].Name, outs[key], late)
+			}
 			if got, want := outs[key], solo[key]; got != want {
 				o.Violate("C07/response-differs", "client %s op %d (%s %s): response under concurrency differs from the response when run alone\n  got: %s\n solo: %s", name, oi, op.Kind, c07Reqs[op.Req].Name, got, want)
 			}
